@@ -33,10 +33,20 @@ type bigInt = big.Int
 func newBigU(k uint64) *big.Int { return new(big.Int).SetUint64(k) }
 
 const (
-	repoDir    = "/repo"
 	verifDir   = "/verif"
 	modulePath = "github.com/zmap/zcrypto"
 )
+
+// repoDir is /repo for every registered check. GOSYM_REPO points a development
+// run at a scratch worktree instead (harness work while /repo is busy); such a run
+// never writes evidence under /verif.
+var repoDir = func() string {
+	if d := os.Getenv("GOSYM_REPO"); d != "" {
+		fmt.Fprintf(os.Stderr, "NOTE: development run against %s, not /repo; no evidence is written\n", d)
+		return d
+	}
+	return "/repo"
+}()
 
 type harnessInfo struct {
 	pkgPath string // import path
@@ -398,6 +408,9 @@ func cmdCheck(args []string) int {
 			}
 			infra = true
 		}
+		if h.stoppedOnViolation {
+			fmt.Printf("STOPPED harness=%s after %d violating paths; the rest of its path space was not explored\n", hi.name, len(h.violations))
+		}
 		if h.truncated {
 			fmt.Printf("INCOMPLETE harness=%s path budget %d exhausted\n", hi.name, cfg.MaxPaths)
 			infra = true
@@ -582,6 +595,10 @@ func cmdCheck(args []string) int {
 	evPath := *evOut
 	if evPath == "" {
 		evPath = filepath.Join(verifDir, "evidence", *prop+".json")
+		if *hre != "" || *noNative || repoDir != "/repo" {
+			// a partial or development run must not replace the evidence of the full check
+			evPath = filepath.Join(os.TempDir(), "gosym-partial-evidence-"+*prop+".json")
+		}
 	}
 	os.MkdirAll(filepath.Dir(evPath), 0o755)
 	b, _ := json.MarshalIndent(ev, "", " ")
